@@ -20,14 +20,26 @@ var verbose = flag.Bool("v", false, "print per-configuration statistics")
 // runUnit enumerates the configurations of the selected unit (sharded) and explores each.
 func runUnit(res *common.Result) {
 	var idx int64
+	aliasAll, errKind, sharedAll := 0, 0, false
 	each := func(cfg Cfg, bound int, quiescentOnly, prune bool) bool {
+		if aliasAll != 0 {
+			cfg.Alias = aliasAll
+		}
+		if errKind != 0 {
+			cfg.ErrKind = errKind
+		}
+		if sharedAll {
+			cfg.Shared = true
+		}
 		cfg.Index = idx
 		idx++
 		if !common.Mine(cfg.Index) || (*only >= 0 && cfg.Index != *only) {
 			return false
 		}
 		if *verbose {
-			defer func(c int64, e int64) { fmt.Fprintf(os.Stderr, "cfg %d %s: %d execs\n", cfg.Index, cfg.String(), res.Evaluations-e) }(res.Configs, res.Evaluations)
+			defer func(c int64, e int64) {
+				fmt.Fprintf(os.Stderr, "cfg %d %s: %d execs\n", cfg.Index, cfg.String(), res.Evaluations-e)
+			}(res.Configs, res.Evaluations)
 		}
 		if common.Expired() {
 			res.Exhaustive = false
@@ -147,6 +159,53 @@ func runUnit(res *common.Result) {
 		dags(4, 4, sigma, 0, true, *pruneFlag, nil)
 	case "nested-orders":
 		nested(func(c Cfg) bool { return each(c, 0, true, *pruneFlag) })
+	case "nested-names-orders": // as nested-orders, the inner pipeline's stages bear the names of outer stages
+		nested(func(c Cfg) bool { c.Alias = 1; return each(c, 0, true, *pruneFlag) })
+	case "nested-names-b1":
+		res.Bound = 1
+		nested(func(c Cfg) bool { c.Alias = 1; return each(c, 1, false, *pruneFlag) })
+	case "dag3-names-orders": // every DAG<=3 x Sigma^n x every adversarial naming scheme, all completion orders
+		for aliasAll = 2; aliasAll < len(aliasSchemes); aliasAll++ {
+			dags(1, 3, sigma, 0, true, *pruneFlag, nil)
+		}
+	case "dag3-names-b1":
+		res.Bound = 1
+		for aliasAll = 2; aliasAll < len(aliasSchemes); aliasAll++ {
+			dags(1, 3, sigma, 1, false, *pruneFlag, nil)
+		}
+	case "dag3-errkinds-orders": // a failing task returns context.DeadlineExceeded / context.Canceled / a wrapped deadline / an interpreter exit status
+		for errKind = 1; errKind <= 4; errKind++ {
+			dags(1, 3, sigma, 0, true, *pruneFlag, func(outs []int) bool {
+				for _, o := range outs {
+					if o == 1 || o == 2 {
+						return true
+					}
+				}
+				return false
+			})
+		}
+	case "nested-errkinds-orders":
+		for errKind = 1; errKind <= 4; errKind++ {
+			nested(func(c Cfg) bool { return each(c, 0, true, *pruneFlag) })
+		}
+	case "dag3-shared-orders": // every leaf stage refers to one task object
+		sharedAll = true
+		dags(1, 3, sigma, 0, true, *pruneFlag, nil)
+	case "dag3-shared-b1":
+		res.Bound = 1
+		sharedAll = true
+		dags(1, 3, sigma, 1, false, *pruneFlag, nil)
+	case "nested-shared-orders":
+		sharedAll = true
+		nested(func(c Cfg) bool { return each(c, 0, true, *pruneFlag) })
+	case "cancel-nested-b0":
+		cancelNested(func(c Cfg) bool { return each(c, 0, false, *pruneFlag) })
+	case "cancel-nested-b1": // a condition that cannot be evaluated inside a nested pipeline; external Cancel with a nested pipeline in flight
+		res.Bound = 1
+		cancelNested(func(c Cfg) bool { return each(c, 1, false, *pruneFlag) })
+	case "cancel-nested-b2":
+		res.Bound = 2
+		cancelNested(func(c Cfg) bool { return each(c, 2, false, *pruneFlag) })
 	case "skeleton5-orders":
 		skeletons(func(c Cfg) bool { return each(c, 0, true, *pruneFlag) }, sigma)
 	case "skeleton5-b0":
@@ -222,12 +281,12 @@ func nested(f func(Cfg) bool) {
 // skeletons: 5-stage series-parallel shapes x Sigma^5.
 func skeletons(f func(Cfg) bool, sigma []int) {
 	shapes := [][][]int{
-		{{}, {0}, {1}, {2}, {3}},          // chain
-		{{}, {0}, {0}, {0}, {0}},          // fan-out
-		{{}, {}, {}, {}, {0, 1, 2, 3}},    // fan-in
-		{{}, {0}, {0}, {1, 2}, {3}},       // diamond + tail
-		{{}, {0}, {0}, {1, 2}, {2}},       // two diamonds sharing a node (c)
-		{{}, {}, {0, 1}, {0, 1}, {2, 3}},  // two layers fully connected
+		{{}, {0}, {1}, {2}, {3}},         // chain
+		{{}, {0}, {0}, {0}, {0}},         // fan-out
+		{{}, {}, {}, {}, {0, 1, 2, 3}},   // fan-in
+		{{}, {0}, {0}, {1, 2}, {3}},      // diamond + tail
+		{{}, {0}, {0}, {1, 2}, {2}},      // two diamonds sharing a node (c)
+		{{}, {}, {0, 1}, {0, 1}, {2, 3}}, // two layers fully connected
 	}
 	for _, deps := range shapes {
 		stop := false
@@ -247,6 +306,41 @@ func skeletons(f func(Cfg) bool, sigma []int) {
 
 // cancelFamily: DAG<=n with all-ok outcomes plus (a) one stage whose condition cannot be
 // evaluated, (b) an external Cancel.
+// cancelNested: outer DAG on <=2 stages, one of them a nested pipeline of <=2 stages; one inner stage has a
+// condition that cannot be evaluated, or the run is cancelled from outside.
+func cancelNested(f func(Cfg) bool) {
+	inner := []string{"x", "y"}
+	for n := 1; n <= 2; n++ {
+		for _, deps := range allDAGs(n) {
+			for pos := 0; pos < n; pos++ {
+				for in := 1; in <= 2; in++ {
+					for _, ideps := range allDAGs(in) {
+						mk := func(ipos int) Cfg {
+							g := mkGraph(deps, make([]int, n), names)
+							ig := mkGraph(ideps, make([]int, in), inner)
+							if ipos >= 0 {
+								ig.Stages[ipos].Cond = "missing-cmd"
+							}
+							g.Stages[pos].Inner = &ig
+							return Cfg{G: g}
+						}
+						for ipos := 0; ipos < in; ipos++ {
+							if f(mk(ipos)) {
+								return
+							}
+						}
+						c := mk(-1)
+						c.Cancel = "external"
+						if f(c) {
+							return
+						}
+					}
+				}
+			}
+		}
+	}
+}
+
 func cancelFamily(f func(Cfg) bool, nmax int) {
 	for n := 1; n <= nmax; n++ {
 		for _, deps := range allDAGs(n) {
